@@ -2080,17 +2080,25 @@ DenseMatrix DenseMatrix::loads(const std::string &serialized)
     unsigned row, col;
     vec_basic obj;
     std::istringstream iss(serialized);
-    RCPBasicAwareInputArchive<cereal::PortableBinaryInputArchive> iarchive{iss};
-    iarchive(major, minor);
-    if (major != SYMENGINE_MAJOR_VERSION or minor != SYMENGINE_MINOR_VERSION) {
-        throw SerializationError(StreamFmt()
-                                 << "SymEngine-" << SYMENGINE_MAJOR_VERSION
-                                 << "." << SYMENGINE_MINOR_VERSION
-                                 << " was asked to deserialize an object "
-                                 << "created using SymEngine-" << major << "."
-                                 << minor << ".");
+    try {
+        // the archive reads a header byte when it is constructed
+        RCPBasicAwareInputArchive<cereal::PortableBinaryInputArchive> iarchive{
+            iss};
+        iarchive(major, minor);
+        if (major != SYMENGINE_MAJOR_VERSION
+            or minor != SYMENGINE_MINOR_VERSION) {
+            throw SerializationError(
+                StreamFmt() << "SymEngine-" << SYMENGINE_MAJOR_VERSION << "."
+                            << SYMENGINE_MINOR_VERSION
+                            << " was asked to deserialize an object "
+                            << "created using SymEngine-" << major << "."
+                            << minor << ".");
+        }
+        iarchive(row, col, obj);
+    } catch (cereal::Exception &e) {
+        // input that ends inside the header or the dimensions
+        throw SerializationError(e.what());
     }
-    iarchive(row, col, obj);
     if (static_cast<size_t>(row) * static_cast<size_t>(col) != obj.size()) {
         throw SerializationError("Invalid matrix dimensions");
     }
